@@ -161,7 +161,7 @@ func cmdCheck(args []string) int {
 			// from scratch (candidate invariants included) with generous time limits
 			retry := false
 			for _, o := range r.Obls {
-				if o.candID < 0 && o.Kind != "vacuity" && o.Result.Verdict != "unsat" && (inBase[o.ID] || o.Level == "aux") {
+				if o.candID < 0 && o.Kind != "vacuity" && o.Result.Verdict != "unsat" && (inBase[o.ID] || o.Level == "aux" || *writeBase) {
 					retry = true
 				}
 			}
@@ -286,7 +286,8 @@ func cmdCheck(args []string) int {
 			continue
 		}
 		good := rw.ok && fnEstablished[rw.r]
-		if good {
+		if good && (o.Result.Secs <= 20 || o.Result.Cached) {
+			// the baseline only lists obligations that discharge with margin
 			propLevelIDs = append(propLevelIDs, o.ID)
 		}
 		if kf, isKnown := known[o.ID]; isKnown {
